@@ -31,7 +31,7 @@ Proof.
   intros rv c' R.
   assert (F : exists a b, finals rv 100 (strip (step rv (init_default 3) (Tick 0 0 []))) = Some [a; b] /\
                           steady3s 0 0 [] a /\ steady3s 0 0 [] b).
-  { destruct rv as [[|] [|]]; eexists; eexists; (split; [vm_compute; reflexivity | split; fin]). }
+  { destruct rv as [[|] [|] [|]]; eexists; eexists; (split; [vm_compute; reflexivity | split; fin]). }
   destruct F as [a [b [F [Ha Hb]]]].
   destruct (finals_sound _ _ _ _ F c' R) as [y [[<-|[<-|[]]] Ey]]; rewrite <- Ey.
   - destruct Ha as [v1 [v2 [t1 [c1 [t2 [c2 [r10 [r12 [r20 [r21 ->]]]]]]]]]]. fin.
